@@ -173,22 +173,33 @@ def main():
             audit(e, 'GenerateKey (real group layer)', {}, {}, set())
             # message-level entry points with the real SM3 (no hash model in this engine)
             if o2.kind == 'return' and o2.values[2] is None:
-                idb = e.new_slice([0x31 + (j % 8) for j in range(16)])
-                msg = e.new_slice([(j * 3 + 1) & 0xff for j in range(70)])
+                # every input lives in a buffer with spare capacity behind it (a caller's record): an append onto an input
+                # then lands in the caller's memory and shows up in the store log as a write to that input
+                def spare(vals, extra=96):
+                    vals = list(vals)
+                    oid = e.new_obj(vals + [0xEE] * extra, ('array', 'uint8', len(vals) + extra))
+                    return Slice(oid, (), 0, len(vals), len(vals) + extra)
+                idb = spare([0x31 + (j % 8) for j in range(16)])
+                msg = spare([(j * 3 + 1) & 0xff for j in range(70)])
+                px_, py_, priv = spare(e.slice_list(px_)), spare(e.slice_list(py_)), spare(e.slice_list(priv))
                 e.store_log.clear()
                 oz = e.call_outcome(SM2 + '.ZA', [idb, px_, py_])
                 audit(e, 'ZA (real SM3)', {}, {idb.obj: 'id', px_.obj: 'public key x', py_.obj: 'public key y'}, set())
                 os_ = e.call_outcome(SM2 + '.Sign', [idb, px_, py_, rd, priv, msg])
                 if os_.kind == 'return' and os_.values[2] is None:
                     r3, s3, _ = os_.values
-                    audit(e, 'Sign (real code)', {}, {idb.obj: 'id', msg.obj: 'message', priv.obj: 'private key'}, {r3.obj, s3.obj})
+                    audit(e, 'Sign (real code)', {}, {idb.obj: 'id', msg.obj: 'message', priv.obj: 'private key', px_.obj: 'public key x', py_.obj: 'public key y'}, {r3.obj, s3.obj})
+                    r3, s3 = spare(e.slice_list(r3)), spare(e.slice_list(s3))
+                    e.store_log.clear()
                     e.call_outcome(SM2 + '.Verify', [idb, px_, py_, msg, r3, s3])
-                    audit(e, 'Verify (real code)', {}, {idb.obj: 'id', msg.obj: 'message', r3.obj: 'r', s3.obj: 's'}, set())
+                    audit(e, 'Verify (real code)', {}, {idb.obj: 'id', msg.obj: 'message', r3.obj: 'r', s3.obj: 's', px_.obj: 'public key x', py_.obj: 'public key y'}, set())
                     if oz.kind == 'return' and oz.values[1] is None:
-                        e.call_outcome(SM2 + '.VerifyZa', [px_, py_, oz.values[0], msg, r3, s3])
-                        audit(e, 'VerifyZa (real code)', {}, {msg.obj: 'message', r3.obj: 'r', s3.obj: 's'}, set())
-                        e.call_outcome(SM2 + '.SignZa', [rd, priv, oz.values[0], msg])
-                        audit(e, 'SignZa (real code)', {}, {msg.obj: 'message', priv.obj: 'private key'}, set())
+                        zas = spare(e.slice_list(oz.values[0]))
+                        e.store_log.clear()
+                        e.call_outcome(SM2 + '.VerifyZa', [px_, py_, zas, msg, r3, s3])
+                        audit(e, 'VerifyZa (real code)', {}, {msg.obj: 'message', r3.obj: 'r', s3.obj: 's', zas.obj: 'za', px_.obj: 'public key x', py_.obj: 'public key y'}, set())
+                        e.call_outcome(SM2 + '.SignZa', [rd, priv, zas, msg])
+                        audit(e, 'SignZa (real code)', {}, {msg.obj: 'message', priv.obj: 'private key', zas.obj: 'za'}, set())
         else:
             findings.append(('SignHashed (real group layer)', 'not-run', 'concrete SignHashed on the real code did not return a signature: %s' % (o.panic.msg if o.kind == 'panic' else 'error')))
 
@@ -264,6 +275,19 @@ func TestVerifReplay(t *testing.T) {
 		r = append(append([]byte{}, r...), rm...); s = append(append([]byte{}, s...), sm...)
 		return res{r, s, x, y}
 	}
+	// one key and one za shared by all workers; za sits at the front of a larger record (spare capacity behind it)
+	priv0 := make([]byte, 32); for j := range priv0 { priv0[j] = byte(j*5 + 9) }
+	x0, y0, _ := DerivePublic(priv0)
+	zaFull, _ := ZA([]byte("1234567812345678"), x0, y0)
+	record := make([]byte, 32, 4096); copy(record, zaFull)
+	recBefore := append([]byte{}, record[:cap(record)]...)
+	doZa := func(i int) {
+		msg := bytes.Repeat([]byte{byte(i + 1)}, 200 + i)
+		r, s, err := SignZa(&fixedReader{byte(i + 3)}, priv0, record, msg); if err != nil { t.Error(err); return }
+		if ok, err := VerifyZa(x0, y0, record, msg, r, s); !ok || err != nil { t.Errorf("worker %d: signature made with the shared za is rejected", i) }
+	}
+	for i := 0; i < G; i++ { doZa(i) }
+	if !bytes.Equal(record[:cap(record)], recBefore) { t.Fatalf("SignZa/VerifyZa wrote into the record that holds za") }
 	serial := make([]res, G)
 	for i := range serial { serial[i] = do(i) }
 	var wg sync.WaitGroup
@@ -272,6 +296,7 @@ func TestVerifReplay(t *testing.T) {
 		go func(i int) {
 			defer wg.Done()
 			for n := 0; n < 40; n++ {
+				doZa(i)
 				got := do(i)
 				if !bytes.Equal(got.r, serial[i].r) || !bytes.Equal(got.s, serial[i].s) || !bytes.Equal(got.x, serial[i].x) || !bytes.Equal(got.y, serial[i].y) { t.Errorf("worker %d: result differs from the serial run", i); return }
 			}
